@@ -83,6 +83,16 @@ def gen_framing(tier, seed):
             b = [x for x in allb if rng.random() < 0.5]
             c = [[rng.randrange(1, n + 1), rng.choice([1, 2, 3, 5, 7, 8, 9, 11, 15, -1, -3])] for _ in range(rng.randrange(0, 5))]
             add("random:%d" % r, tk, tr, md, steps, b, c)
+        # a segmentation with an empty segment (websocket: an empty binary message before / between / inside packets)
+        if tr == "ws" and md == "msg":
+            for e in ([0], [1], [3], [n - 1], [0, 2, 4]):
+                out.append({"id": "f%05d" % len(out), "origin": "empty:%s" % "-".join(map(str, e)), "cfg": base_cfg(tk), "transport": tr, "mode": md,
+                            "tun": dict(H_A, user="user1" if tk else "nuser1"), "steps": steps, "bounds": allb, "cuts": [[2, 5]] if len(e) > 1 else [], "badlen": [], "empties": e})
+        # legacy: the chunk carrying the last packet(s) and the chunk that ends the request body in one write
+        if tr == "legacy" and md == "msg":
+            for b in (allb, allb[:-1], allb[:-2], []):
+                out.append({"id": "f%05d" % len(out), "origin": "endwith:%d" % len(b), "cfg": base_cfg(tk), "transport": tr, "mode": md,
+                            "tun": dict(H_A, user="user1" if tk else "nuser1"), "steps": steps, "bounds": b, "cuts": [], "badlen": [], "endWith": True})
         # unframeable streams
         for i in (1, 2, 4, 5, n):
             for L in (0, 1, 4, 7):
